@@ -53,7 +53,8 @@ def run(ctx):
     cl.model_check(ctx, "DnsWireGen.tla", "c03_codec_mc", consts, ["RoundTrip", "WriterSound"], timeout=1200)
     cb = cl.gen_consts(ctx.tier, ctx.seed, fams=["big"], muts=[], flags=(0,), stride=1, combo=1)
     cb["Emit"] = "FALSE"
-    cl.model_check(ctx, "DnsWireGen.tla", "c03_big_mc", cb, ["RoundTrip", "WriterSound"], timeout=900)
+    cl.model_check(ctx, "DnsWireGen.tla", "c03_big_mc", cb, ["RoundTrip", "WriterSound", "SizeLimit", "EdgeExact"],
+                   timeout=900)
     r = cl.run_tlc(ctx, "DnsWireGen.tla", os.path.join(cl.SPECDIR, "DnsWireGen_ascoded.cfg"), workers=4, timeout=600,
                    account=False)
     if r.violation != "WriterSound":
@@ -312,6 +313,8 @@ def _classify_reparse(eid, w, md, diffs):
         return "write.name_presentation_longer_than_511_chars.silently_truncated"
     if diffs:
         return "write.reparse_differs." + diffs[0][0]
+    if w.get("len") == 65535:       # the largest message there is (DnsWire!MaxMsgLen)
+        return "write.reparse_fails.st%s.message_of_exactly_65535_octets" % w.get("rp_st")
     return "write.reparse_fails.st%s" % w.get("rp_st")
 
 
